@@ -669,7 +669,7 @@ def ref_unquote(s, qs=False, unsafe="", ignore=""):
 
 UQ_CFG = {"UNQUOTER": {}, "PATH_UNQUOTER": {"unsafe": "+"}, "PATH_SAFE_UNQUOTER": {"ignore": "/%", "unsafe": "+"}, "QS_UNQUOTER": {"qs": True}}
 C06_OBS = ["user", "password", "path", "path_safe", "parts", "name", "suffix", "query", "query_string", "fragment",
-           "raw_user", "raw_password", "raw_path", "raw_query_string", "raw_fragment", "raw_name", "raw_suffix", "raw_parts"]
+           "raw_user", "raw_password", "raw_path", "raw_query_string", "raw_fragment", "raw_name", "raw_suffix", "raw_parts", "val"]
 
 
 def no_surr(t):
@@ -746,7 +746,51 @@ def c06_oracle(full, io, b):
             a = v.get(h, "name")
             if a is not None and not a.startswith("!") and no_surr(t) and dec(a) != t:
                 out.append(fail(v, h, "name", f"with_name({t!r}) reads back as name = {dec(a)!r}", "readback"))
+
+        def dotty(t_):
+            return any(sg in (".", "..") for sg in t_.split("/"))
+        val = v.get(h, "val")
+        has_auth = bool(val and val.startswith("L5:") and dlist_a(val)[1])
+        if f[0] == "mod" and f[3] == "with_path" and f[5] == "F":
+            t = dec(f[4])
+            a = v.get(h, "path")
+            if a is not None and not a.startswith("!") and no_surr(t) and not (has_auth and dotty(t)):
+                got = dec(a)
+                if got != t:
+                    rooted = (t == "" and got == "/" and has_auth) or (t != "" and not t.startswith("/") and got == "/" + t)
+                    out.append(fail(v, h, "path", f"with_path({t!r}) reads back as path = {got!r}", "readback-path-rooted" if rooted else "readback"))
+        if f[0] == "mod" and f[3] in ("truediv", "joinpath") and (f[3] == "truediv" or f[4] == "F"):
+            args = [dec(x) for x in (f[4:] if f[3] == "truediv" else f[5:])]
+            if args:
+                t = args[-1]
+                a = v.get(h, "name")
+                if a is not None and not a.startswith("!") and t and "/" not in t and t not in (".", "..") and no_surr(t) and dec(a) != t:
+                    out.append(fail(v, h, "name", f"{f[3]}(…, {t!r}) reads back as name = {dec(a)!r}", "readback"))
+        if f[0] == "bld":
+            kw = dict(x.partition("=")[::2] for x in f[2:])
+            if kw.get("encoded") != "T" and "authority" not in kw:
+                for key, acc in (("user", "user"), ("password", "password"), ("fragment", "fragment"), ("path", "path")):
+                    if key not in kw or kw[key] == "~":
+                        continue
+                    if key in ("user", "password") and not kw.get("host"):
+                        continue
+                    t = dec(kw[key])
+                    a = v.get(h, acc)
+                    if a is None or a.startswith("!") or not no_surr(t):
+                        continue
+                    got = None if a == "~" else dec(a)
+                    if key == "user" and t == "":
+                        continue                        # an empty user is no user (documented for with_user; same rule)
+                    if key == "path" and ((has_auth and dotty(t)) or (t == "" and has_auth)):
+                        continue
+                    if got != t:
+                        out.append(fail(v, h, acc, f"build({key}={t!r}) reads back as {acc} = {got!r}", "readback"))
     return out
+
+
+def dlist_a(x):
+    body = x.partition(":")[2]
+    return [dec(y) for y in body.split(",")] if body else []
 
 
 def c06_streams(rng, tier, budget):
